@@ -17,6 +17,7 @@ import (
 	"net/url"
 	"os"
 	"path/filepath"
+	"runtime"
 	"strings"
 	"testing"
 	"testing/synctest"
@@ -184,6 +185,11 @@ func raftBody(t *testing.T, ncmd, maxFaults int) func(tp *explore.Tape) explore.
 			select {
 			case <-finished:
 			case <-time.After(180 * time.Second):
+				if f := os.Getenv("VERIF_C07_HANGLOG"); f != "" {
+					buf := make([]byte, 1<<20)
+					buf = buf[:runtime.Stack(buf, true)]
+					os.WriteFile(fmt.Sprintf("%s.%d", f, os.Getpid()), []byte(fmt.Sprintf("%v\n%s\n%s", tp.Picks(), strings.Join(desc, "; "), buf)), 0o644)
+				}
 				os.RemoveAll(dir)
 				explore.Abort(tp, explore.Outcome{Violation: "the execution did not finish within 180 s of real time (normal: under a second): the cluster hangs; steps so far: " + strings.Join(desc, "; "), Sig: "raft:hang"})
 			}
